@@ -127,6 +127,14 @@ def _shared_prior_named():
 
 
 CATALOGUE.update({"SharedPriorObject": _shared_prior, "SharedPriorObject_named": _shared_prior_named})
+# further modules with constrained parameters / priors (audit of the classes the catalogue did not hold)
+CATALOGUE.update(
+    {
+        "NewtonGirardAdditiveKernel": lambda: K.NewtonGirardAdditiveKernel(K.RBFKernel(), num_dims=3, max_degree=2),
+        "MultitaskGaussianLikelihood_taskprior": lambda: L.MultitaskGaussianLikelihood(num_tasks=2, rank=1, task_prior=P.LKJCovariancePrior(2, 1.0, P.SmoothedBoxPrior(0.1, 2.0))),
+        "ConstantKernel_batch": lambda: K.ConstantKernel(batch_shape=torch.Size([2]), constant_prior=_gamma()),
+    }
+)
 # batch size equal to the size of the trailing dimension (tasks / mixtures): a per-task vector must not be lined up with the batch
 CATALOGUE.update(
     {
@@ -462,6 +470,16 @@ def check_all(out, i, module, ref, entry, dtype_name, where):
         except Exception as e:  # noqa
             out.violate("prior_closure_raises", i, "closure of prior %s raised %s" % (pname, type(e).__name__), family=entry, prior=type(prior).__name__)
             continue
+        if not torch.is_tensor(cv):
+            out.violate("prior_closure_raises", i, "closure of prior %s returns a %s, not the value of the parameter" % (pname, type(cv).__name__), family=entry, prior=type(prior).__name__)
+            continue
+        try:
+            prior.log_prob(cv)
+        except (TypeError, AttributeError) as e:
+            out.violate("prior_closure_raises", i, "log density of prior %s at the closure's value raised %s(%s)" % (pname, type(e).__name__, str(e)[:80]), family=entry, prior=type(prior).__name__)
+            continue
+        except Exception:  # noqa  (ValueError of torch's support validation etc.: a value outside the support)
+            pass
         local = pname.rsplit(".", 1)[-1]
         pub = local[: -len("_prior")] if local.endswith("_prior") else None
         if pub and isinstance(getattr(type(pmod), pub, None), property):
@@ -728,7 +746,12 @@ def execute(history):
                     pname, pmod, prior, closure, setting = priors[op["which"] % len(priors)]
                     local = pname.rsplit(".", 1)[-1]
                     torch.manual_seed(op["seed"])
-                    expected = prior.sample()
+                    try:
+                        expected = prior.sample()
+                    except Exception as e:  # noqa  (a prior that cannot be sampled in this dtype: nothing to store)
+                        out.stats["rejected:prior_sample_" + type(e).__name__] += 1
+                        sketch.append("sample_prior[unavailable]")
+                        continue
                     before = snapshot(module)
                     torch.manual_seed(op["seed"])
                     try:
